@@ -92,14 +92,21 @@ func cmdSelftestFS(args []string) {
 		os.Exit(1)
 	}
 	for pi, p0 := range projects {
-		dir := filepath.Join(base, fmt.Sprintf("p%d", pi))
-		p := rebase(p0, dir)
+		// every comparison gets its own directory: a change that keeps path-keyed state between
+		// parses must not make the simulated and the real run of *this* validation interfere
+		vn := 0
+		fresh := func() (Project, string) {
+			vn++
+			dir := filepath.Join(base, fmt.Sprintf("p%d", pi), fmt.Sprintf("v%d", vn))
+			return rebase(p0, dir), dir
+		}
 		for _, entry := range []string{"path", "file"} {
 			o := Opts{FixedSeed: true, Entry: entry}
-			must(os.RemoveAll(dir))
+			p, dir := fresh()
 			writeReal(&p)
 			simRes, disk, _ := execute(&p, o, refEnv, nil, 1, nil)
 			realRes := executeReal(&p, o)
+			os.RemoveAll(dir)
 			n++
 			if same, why := simRes.Same(&realRes); !same {
 				fail("fault-free", &p, &simRes, &realRes, why)
@@ -107,70 +114,79 @@ func cmdSelftestFS(args []string) {
 			if entry != "path" {
 				continue
 			}
+			refLog := disk.Log
+			refDir := dir
 			// faults the real disk can produce: per include-related call of the reference run
-			for ci, e := range disk.Log {
+			for ci, e := range refLog {
 				if e.Op != "stat" && e.Op != "readfile" {
 					continue
 				}
-				ap := filepath.Clean(e.Path)
-				if _, ok := p.Files[ap]; !ok {
+				relp, err := filepath.Rel(refDir, filepath.Clean(e.Path))
+				if err != nil || strings.HasPrefix(relp, "..") {
 					continue
 				}
-				content := p.content(ap)
+				if _, ok := p.Files[filepath.Join(refDir, relp)]; !ok {
+					continue
+				}
+				content := p.content(filepath.Join(refDir, relp))
+				isRoot := filepath.Join(refDir, relp) == p.absRoot()
+				touches := countTouches(refLog, filepath.Join(refDir, relp))
 				type variant struct {
 					name  string
-					plan  simrt.PlannedFault
-					apply func()
+					kind  int
+					p1    int
+					p2    int
+					apply func(ap string)
 				}
 				vs := []variant{
-					{"enoent", simrt.PlannedFault{Call: ci, Kind: simrt.FEnoent}, func() { must(os.Remove(ap)) }},
-					{"empty", simrt.PlannedFault{Call: ci, Kind: simrt.FEmpty}, func() { must(os.WriteFile(ap, nil, 0o644)) }},
+					{"enoent", simrt.FEnoent, 0, 0, func(ap string) { must(os.Remove(ap)) }},
+					{"empty", simrt.FEmpty, 0, 0, func(ap string) { must(os.WriteFile(ap, nil, 0o644)) }},
 				}
 				if e.Op == "stat" {
-					vs = append(vs, variant{"eisdir", simrt.PlannedFault{Call: ci, Kind: simrt.FEisdir}, func() { must(os.Remove(ap)); must(os.Mkdir(ap, 0o755)) }})
+					vs = append(vs, variant{"eisdir", simrt.FEisdir, 0, 0, func(ap string) { must(os.Remove(ap)); must(os.Mkdir(ap, 0o755)) }})
 				}
 				if e.Op == "readfile" && len(content) > 1 {
 					k := r.n(len(content))
-					vs = append(vs, variant{"torn", simrt.PlannedFault{Call: ci, Kind: simrt.FTorn, P1: k}, func() { must(os.WriteFile(ap, content[:k], 0o644)) }})
+					vs = append(vs, variant{"torn", simrt.FTorn, k, 0, func(ap string) { must(os.WriteFile(ap, content[:k], 0o644)) }})
 					fl := append([]byte(nil), content...)
 					b := byte("(){}\"/\n#@"[r.n(9)])
 					if fl[k] == b {
 						b ^= 0x20
 					}
 					fl[k] = b
-					vs = append(vs, variant{"flip", simrt.PlannedFault{Call: ci, Kind: simrt.FFlip, P1: k, P2: int(b)}, func() { must(os.WriteFile(ap, fl, 0o644)) }})
+					vs = append(vs, variant{"flip", simrt.FFlip, k, int(b), func(ap string) { must(os.WriteFile(ap, fl, 0o644)) }})
 				}
 				for _, v := range vs {
 					// A real-disk state change is persistent while a planned fault hits one call;
 					// they coincide when the path is touched by exactly one stat and one read.
-					// A stat-time fault (the target vanished before stat) equals the persistent state;
-					// a read-time fault equals it only if the stat still succeeds, which for
-					// enoent it does not: so read-time enoent is only reachable in simulation.
-					if e.Op == "readfile" && (v.name == "enoent") && ap != p.absRoot() {
+					// A read-time enoent (file vanished between stat and read) is only reachable in simulation.
+					if e.Op == "readfile" && v.name == "enoent" && !isRoot {
 						continue
 					}
-					if e.Op == "stat" && (v.name == "empty") {
+					if e.Op == "stat" && v.name == "empty" {
 						continue // content faults do not apply to stat
 					}
-					if countTouches(disk.Log, ap) > 2 {
+					if touches > 2 {
 						continue
 					}
-					must(os.RemoveAll(dir))
-					writeReal(&p)
-					v.apply()
-					realRes := executeReal(&p, o)
-					simRes, d2, _ := execute(&p, o, refEnv, []simrt.PlannedFault{v.plan}, 1, nil)
-					if d2.Fired[v.plan.Kind] == 0 {
+					q, qdir := fresh()
+					writeReal(&q)
+					v.apply(filepath.Join(qdir, relp))
+					realRes := executeReal(&q, o)
+					plan := []simrt.PlannedFault{{Call: ci, Kind: v.kind, P1: v.p1, P2: v.p2}}
+					simRes, d2, _ := execute(&q, o, refEnv, plan, 1, nil)
+					os.RemoveAll(qdir)
+					if d2.Fired[v.kind] == 0 {
 						continue
 					}
 					faults++
 					if same, why := simRes.Same(&realRes); !same {
-						fail(v.name+"@"+e.Op, &p, &simRes, &realRes, why)
+						fail(v.name+"@"+e.Op, &q, &simRes, &realRes, why)
 					}
 				}
 			}
 		}
-		os.RemoveAll(dir)
+		os.RemoveAll(filepath.Join(base, fmt.Sprintf("p%d", pi)))
 	}
 	fmt.Printf("fs stub validation ok: %d fault-free comparisons, %d fault comparisons\n", n, faults)
 }
